@@ -41,27 +41,27 @@ def lean(repo):
 
     # ---------------------------------------------------------------- reassemble()
     rs = _func(comp, "reassemble")
-    m = _one(r"unsigned int memory\s*=\s*length\s*\*\s*(\d+)\s*\+\s*(\d+)\s*;", rs, "initial reassembly size")
-    factor, header = int(m.group(1)), int(m.group(2))
-    m = _one(r"strm->avail_in\s*=\s*memory\s*-\s*(\d+)\s*;", rs, "initial avail_in")
+    m = _one(r"\b(\w+)\s*=\s*length\s*\*\s*(\d+)\s*\+\s*(\d+)\s*;", rs, "initial reassembly size")
+    memvar, factor, header = m.group(1), int(m.group(2)), int(m.group(3))
+    m = _one(r"strm->avail_in\s*=\s*%s\s*-\s*(\d+)\s*;" % memvar, rs, "initial avail_in")
     if int(m.group(1)) != header:
         raise ValueError("ext_deflate: avail_in = memory - %s does not match the + %d header" % (m.group(1), header))
-    m = _one(r"\b(if|while)\s*\(\s*strm->avail_in\s*<=\s*length\s*\+\s*(\d+)\s*\)\s*\{\s*unsigned int next_size\s*=\s*"
+    m = _one(r"\b(if|while)\s*\(\s*strm->avail_in\s*<=\s*length\s*\+\s*(\d+)\s*\)\s*\{\s*(?:unsigned\s+int|uint32_t|size_t)\s+(\w+)\s*=\s*"
              r"read_int_from_array\(strm->next_in\)\s*\*\s*(\d+)\s*;", rs, "growth step")
-    grow_kw, slack, growf = m.group(1), int(m.group(2)), int(m.group(3))
-    _one(r"strm->avail_in\s*\+=\s*next_size\s*/\s*%d\s*;" % growf, rs, "avail_in += next_size / 2")
-    _one(r"unsigned int write_offset\s*=\s*read_int_from_array\(strm->next_in\)\s*-\s*strm->avail_in\s*;\s*"
-         r"memcpy\(strm->next_in\s*\+\s*write_offset,\s*msg,\s*length\)\s*;\s*strm->avail_in\s*-=\s*length\s*;", rs,
-         "write offset / memcpy / avail_in -= length")
+    grow_kw, slack, nsvar, growf = m.group(1), int(m.group(2)), m.group(3), int(m.group(4))
+    _one(r"strm->avail_in\s*\+=\s*%s\s*/\s*%d\s*;" % (nsvar, growf), rs, "avail_in += next_size / 2")
+    m = _one(r"\b(\w+)\s*=\s*read_int_from_array\(strm->next_in\)\s*-\s*strm->avail_in\s*;", rs, "write offset")
+    _one(r"memcpy\(strm->next_in\s*\+\s*%s,\s*msg,\s*length\)\s*;\s*strm->avail_in\s*-=\s*length\s*;" % m.group(1), rs,
+         "memcpy / avail_in -= length")
     _one(r"if\s*\(\s*length\s*!=\s*0\s*\)\s*\{", rs, "empty fragments are skipped")
     # the two frame functions: is a final fragment without a buffer refused?
     guards = []
     for fn in ("text_frame_received_comp", "binary_frame_received_comp"):
         body = _func(comp, fn)
-        _one(r"size_t sumLen\s*=\s*read_int_from_array\(strm->next_in\)\s*-\s*strm->avail_in\s*-\s*%d\s*;\s*"
-             r"memmove\(strm->next_in,\s*strm->next_in\s*\+\s*%d,\s*sumLen\)" % (header, header), body,
-             fn + ": sumLen / memmove")
-        pre = body.split("size_t sumLen")[0]
+        m = _one(r"\b(\w+)\s*=\s*read_int_from_array\(strm->next_in\)\s*-\s*strm->avail_in\s*-\s*%d\s*;" % header, body,
+                 fn + ": sumLen")
+        _one(r"memmove\(strm->next_in,\s*strm->next_in\s*\+\s*%d,\s*%s\)" % (header, m.group(1)), body, fn + ": memmove")
+        pre = body[:m.start()]
         guards.append(bool(re.search(r"if\s*\(\s*strm->avail_in\s*==\s*0\s*\)\s*\{?[^}]*return\s+WS_ERROR", pre, re.S)))
     if guards[0] != guards[1]:
         raise ValueError("ext_deflate: text and binary frame functions differ in the no-buffer guard")
@@ -73,24 +73,25 @@ def lean(repo):
         idx = r"length" if i == 0 else r"length\s*\+\s*%d" % i
         tail.append(int(_one(r"in\[%s\]\s*=\s*(0x[0-9a-fA-F]+|\d+)\s*;" % idx, pd, "tail byte %d" % i).group(1), 0))
     _one(r"strm->avail_in\s*=\s*length\s*\+\s*4\s*;", pd, "avail_in = length + 4")
-    outf = int(_one(r"size_t size_out\s*=\s*(\d+)\s*\*\s*length\s*;", pd, "inflate output factor").group(1))
-    _one(r"strm->avail_out\s*\+=\s*size_out\s*;\s*size_out\s*\*=\s*2\s*;", pd, "output doubling")
-    _one(r"strm->next_out\s*=\s*out\s*\+\s*size_out\s*/\s*2\s*;", pd, "next_out after doubling")
+    m = _one(r"\b(\w+)\s*=\s*(\d+)\s*\*\s*length\s*;", pd, "inflate output factor")
+    so, outf = m.group(1), int(m.group(2))
+    _one(r"strm->avail_out\s*\+=\s*%s\s*;\s*%s\s*\*=\s*2\s*;" % (so, so), pd, "output doubling")
+    _one(r"strm->next_out\s*=\s*\w+\s*\+\s*%s\s*/\s*2\s*;" % so, pd, "next_out after doubling")
     _one(r"\}\s*while\s*\(\s*strm->avail_out\s*==\s*0\s*\)\s*;", pd, "loop condition")
-    _one(r"\*have\s*=\s*size_out\s*-\s*strm->avail_out\s*;", pd, "have")
+    _one(r"\*\w+\s*=\s*%s\s*-\s*strm->avail_out\s*;" % so, pd, "have")
 
     # ---------------------------------------------------------------- websocket_compress()
     wc = _func(comp, "websocket_compress")
     compf = int(_one(r"strm->avail_out\s*=\s*length\s*\*\s*(\d+)\s*;", wc, "deflate output factor").group(1))
-    _one(r"have\s*=\s*length\s*\*\s*%d\s*-\s*strm->avail_out\s*;" % compf, wc, "have")
+    hv = _one(r"\b(\w+)\s*=\s*length\s*\*\s*%d\s*-\s*strm->avail_out\s*;" % compf, wc, "have").group(1)
     chk = []
     for i in range(4, 0, -1):
-        chk.append(int(_one(r"dest\[have\s*-\s*%d\]\s*!=\s*(0x[0-9a-fA-F]+|\d+)" % i, wc, "tail check %d" % i).group(1), 0))
+        chk.append(int(_one(r"dest\[%s\s*-\s*%d\]\s*!=\s*(0x[0-9a-fA-F]+|\d+)" % (hv, i), wc, "tail check %d" % i).group(1), 0))
     if chk != tail:
         raise ValueError("ext_deflate: tail appended %r differs from tail checked %r" % (tail, chk))
-    strip = int(_one(r"have\s*-=\s*(\d+)\s*;", wc, "tail strip length").group(1))
+    strip = int(_one(r"\b%s\s*-=\s*(\d+)\s*;" % hv, wc, "tail strip length").group(1))
     send = _func(ws, "send_frame")
-    sendf = int(_one(r"payload_comp\s*=\s*malloc\(\s*length\s*\*\s*(\d+)\s*\)\s*;", send, "send_frame buffer").group(1))
+    sendf = int(_one(r"\w+\s*=\s*(?:cjet_)?malloc\(\s*length\s*\*\s*(\d+)\s*\)\s*;", send, "send_frame buffer").group(1))
 
     # ---------------------------------------------------------------- negotiation
     fre = _func(ws, "fill_requested_extension")
